@@ -6,11 +6,11 @@ from core import Result
 import proto, gen, implutil
 
 THEOREMS = ['C07_detector_args', 'C07_fraction', 'C07_fraction_inside', 'C07_fraction_range', 'C07_rule', 'C07_pointwise', 'C07_one_minN',
-            'C07_antitone', 'C07_rejects_threshold', 'C07_rejects_amp_threshes']
+            'C07_antitone', 'C07_rejects_threshold', 'C07_rejects_amp_threshes', 'C07_pipeline']
 RULE = ("(a) synthetic burst_fraction columns (values k/n, NaN, on/next to the threshold) x thresholds (grid, observed values, out of range) x min_n_cycles; "
         "(b) compute_features(burst_method='amp') on generated partially bursting signals, both centrings, amp_threshes grid (incl. reversed), "
         "min_n_cycles supplied via thresholds / burst options / both / neither: the harness recomputes the dual-threshold mask with neurodsp for the "
-        "min_n_cycles the SPEC says must reach the detector and compares burst_fraction (exact k/n within 1e-12) and is_burst; "
+        "min_n_cycles the SPEC says must reach the detector and compares burst_fraction (exact k/n within 1e-12) and is_burst; the whole table is also handed to the composed Lean model pipelineAmp (C07_pipeline); "
         "distinct = distinct inputs; non-trivial = labels contain both values or fractions strictly between 0 and 1 or the call must raise")
 ASSUMPTIONS = ["neurodsp.burst.detect_bursts_dual_threshold is a parameter (mask recorded by the harness for the arguments the Lean spec prescribes)"]
 BATCH = 300
@@ -168,7 +168,7 @@ def evaluate(ctx, cases):
             reqs1b.append('detargs.spec %s %s' % (ans[2 * i + 1][0], _opt(bk, 'min_burst_duration')))
     ans1b = iter(proto.run_driver(reqs1b))
     # pass 2: for signal cases compute masks and ask fraction / label questions
-    reqs2, plan = [], []
+    reqs2, plan, e2e = [], [], []
     for i, c in enumerate(cases):
         a, b = ans[2 * i], ans[2 * i + 1]
         if c['kind'] == 'table':
@@ -198,8 +198,21 @@ def evaluate(ctx, cases):
                   'amp.model %s %s %s' % (fr, proto.enc_rat(thr), proto.enc_rat(run_m)),
                   'amp.spec %s %s %s' % (fr, proto.enc_rat(thr), proto.enc_rat(run_s))]
         plan.append(('sig', im, len(reqs2) - 4, (det_m, run_m, det_s, run_s, args_m, args_s)))
+        # END TO END: the composed Lean model pipelineAmp (PipelineAmp.lean, C07_pipeline) on the original samples and the kernels' answers (filter sign pattern, band
+        # amplitude, the detector's mask for the arguments the MODEL hands it): burst fractions and labels of the whole table
+        try:
+            import kernels
+            x = proto.hex2arr(c['sig']); s2 = x if c['center'] == 'peak' else -x
+            padn, bsign = kernels.filt_sign(s2, c['fs'], tuple(c['f_range']), None, True)
+            ampk = kernels.band_amp(s2, c['fs'], tuple(c['f_range']), n_cycles=3)
+            e2e.append((len(plan) - 1, 'pipelineamp.model %s %s %d %s %s 0 %s %s %s %s %s' % (
+                c['center'], proto.enc_list(x), padn, proto.enc_bits(bsign), proto.enc_list(ampk), _opt(bk, 'min_n_cycles'), _opt(th, 'min_n_cycles'),
+                _opt(bk, 'min_burst_duration'), proto.enc_bits(mask_m), proto.enc_rat(thr))))
+        except Exception:
+            pass
     ans2 = proto.run_driver(reqs2)
-    for c, p in zip(cases, plan):
+    e2e_ans = dict(zip([k for k, _ in e2e], proto.run_driver([r for _, r in e2e])))
+    for pi, (c, p) in enumerate(zip(cases, plan)):
         info = {}
         if p[0] == 'table':
             impl = _impl_table(c['fracs'], dict(c['th']))
@@ -233,6 +246,20 @@ def evaluate(ctx, cases):
                         min_n=[str(x) for x in mn], frac_ok=frac_j)
             nt = ('1' in im['labels'] and '0' in im['labels']) or any(0 < x < 1 for x in im['fracs'])
             ctx.hist('route', c.get('route'))
+            if pi in e2e_ans and corr_ok:
+                ea = e2e_ans[pi]
+                if not (isinstance(ea, list) and ea and ea[0] == 'ok'):
+                    d = 'the composed model answers %r although the implementation returned a table' % (ea,)
+                elif len(ea[3]) != len(im['fracs']) or not all(close(x, v) for x, v in zip(im['fracs'], ea[3])):
+                    d = 'burst fractions differ from the composed model'
+                elif ea[4] != im['labels']:
+                    thr_ = float((c['th'] or {}).get('burst_fraction_threshold', 1))
+                    d = ('tie: a burst fraction within 1e-9 of the threshold' if any(x == x and abs(x - thr_) <= 1e-9 for x in im['fracs']) else
+                         'labels: implementation %s, composed model %s' % (im['labels'], ea[4]))
+                else: d = None
+                if d is not None and not d.startswith('tie:'):
+                    corr_ok = False; info['pipeline'] = d
+                ctx.hist('pipeline (amp) fractions + labels', 'agrees' if d is None else ('float tie' if d.startswith('tie:') else 'differs'))
         ctx.hist('kind', p[0])
         key = repr({k: v for k, v in c.items() if k != 'family'})
         out.append(Result(c, judge_ok=judge_ok, corr_ok=corr_ok, sig=hash(key), nontrivial=nt, info=info))
